@@ -128,6 +128,7 @@ type Enc struct {
 	groupTail      []*Oblig
 	atVars         map[string]SV
 	gaddrs         []Term
+	privCells      []privCell
 	labels         map[string]*State
 	lastRelease    map[*LockDecl]*State
 	lastAcquire    map[*LockDecl]*State
